@@ -327,8 +327,9 @@ class G:
         k = self.r.randrange(8)
         if k == 0:
             cols = ", ".join("%s %s%s" % (self.ident(), self.pick(["INT64", "STRING(MAX)", "ARRAY<STRING(10)>", "BOOL", "TIMESTAMP"]),
-                                          self.pick(["", " NOT NULL", " DEFAULT (1)", " OPTIONS (allow_commit_timestamp = true)", " AS (a + 1) STORED"])) for _ in range(self.r.randrange(1, 4)))
-            return "CREATE TABLE %s%s (%s) PRIMARY KEY (%s)%s" % (self.pick(["", "IF NOT EXISTS "]), self.path(), cols, self.pick(["a", "a, b DESC"]),
+                                          self.pick(["", " NOT NULL", " DEFAULT (1)", " OPTIONS (allow_commit_timestamp = true)", " AS (a + 1) STORED", " PRIMARY KEY", " HIDDEN",
+                                                     " NOT NULL PRIMARY KEY", " HIDDEN PRIMARY KEY", " NOT NULL HIDDEN"])) for _ in range(self.r.randrange(1, 4)))
+            return "CREATE TABLE %s%s (%s)%s%s" % (self.pick(["", "IF NOT EXISTS "]), self.path(), cols, self.pick([" PRIMARY KEY (a)", " PRIMARY KEY (a, b DESC)", "", " PRIMARY KEY ()"]),
                                                                self.pick(["", ", INTERLEAVE IN PARENT p ON DELETE CASCADE", ", ROW DELETION POLICY (OLDER_THAN(ts, INTERVAL 30 DAY))"]))
         if k == 1:
             return "CREATE %s%sINDEX %s ON %s (a%s)%s" % (self.pick(["", "UNIQUE "]), self.pick(["", "NULL_FILTERED "]), self.ident(), self.path(), self.pick(["", " DESC, b"]),
@@ -361,9 +362,40 @@ def gen_keywords():
     return re.findall(r"\(\* ([A-Z_]+) \*\)", open(p).read())
 
 
+COLUMN_OPTS = ["", " NOT NULL", " DEFAULT (1)", " OPTIONS (allow_commit_timestamp = true)", " AS (a + 1) STORED", " PRIMARY KEY", " HIDDEN",
+               " NOT NULL PRIMARY KEY", " HIDDEN PRIMARY KEY", " NOT NULL HIDDEN", " NOT NULL DEFAULT (2) OPTIONS (x = 1)"]
+KEY_CLAUSES = [" PRIMARY KEY (a)", " PRIMARY KEY (a, b DESC)", "", " PRIMARY KEY ()"]
+TABLE_TAILS = ["", ", INTERLEAVE IN PARENT p ON DELETE CASCADE", ", ROW DELETION POLICY (OLDER_THAN(ts, INTERVAL 30 DAY))"]
+
+
+def systematic_cases(valid_only=True):
+    """seed-independent pairwise enumeration of optional clauses (every pair of column options x every key clause, ...);
+    valid_only: leave out combinations Spanner forbids (two key definitions) - they are still inputs for the error-contract checks"""
+    out = []
+    for i, o1 in enumerate(COLUMN_OPTS):
+        for j, o2 in enumerate(COLUMN_OPTS):
+            k = KEY_CLAUSES[(i + j) % len(KEY_CLAUSES)]
+            npk = ("PRIMARY KEY" in o1) + ("PRIMARY KEY" in o2)
+            if npk and valid_only:
+                if npk > 1:
+                    continue
+                k = ""
+            elif npk and (i + j) % 3:
+                k = ""
+            t = TABLE_TAILS[(i * 3 + j) % len(TABLE_TAILS)]
+            out.append(("ParseDDL" if (i + j) % 2 else "ParseStatement", ("CREATE TABLE t (a INT64%s, b STRING(MAX)%s)%s%s" % (o1, o2, k, t)).encode()))
+    for k in KEY_CLAUSES:
+        for o in COLUMN_OPTS:
+            if "PRIMARY KEY" in o and k and valid_only:
+                continue
+            out.append(("ParseDDL", ("CREATE TABLE t (a INT64%s)%s" % (o, k)).encode()))
+            out.append(("ParseDDL", ("ALTER TABLE t ADD COLUMN a INT64%s" % o).encode()))
+    return out
+
+
 def sentence_cases(rnd, n):
     g = G(rnd, gen_keywords())
-    out = []
+    out = systematic_cases()
     for i in range(n):
         k = i % 10
         try:
